@@ -133,7 +133,17 @@ def gen_mod(rng, spec, protected, counter):
     if kind == "param":
         path = pick(rng, PARAM_PATHS)
         dates = [d for d, _ in spec["parameters"][path]]
-        return ["param", path, gen_range(rng, dates), round(rng.uniform(0, 3), 2)]
+        value = round(rng.uniform(0, 3), 2)
+        held = [x for _, x in spec["parameters"][path] if x is not None]
+        if held and chance(rng, 0.35):
+            # a value the parameter already takes at some date (a scheduled value brought
+            # forward, an old one restored)
+            value = pick(rng, held)
+        mod = ["param", path, gen_range(rng, dates), value]
+        if chance(rng, 0.15):
+            # older packages reach the history through the parameter's `values_history` alias
+            mod.append("values_history")
+        return mod
     v = pick(rng, plain)
     i = vs.index(v)
     if kind == "neutralize":
@@ -298,7 +308,10 @@ def do_mod(system, world: World, spec_before, mod, in_reform=True):
         system.annualize_variable(mod[1])
     elif kind == "param":
         def modifier(parameters, mod=mod):
-            call_update(_get_param(parameters, mod[1]), mod[2], mod[3])
+            target = _get_param(parameters, mod[1])
+            if len(mod) > 4 and mod[4] == "values_history":
+                target = target.values_history
+            call_update(target, mod[2], mod[3])
             return parameters
 
         if in_reform:
